@@ -42,18 +42,24 @@ Fixpoint load (depth : nat) (f : file) (l : option ploc) (bound : Z) (budget : n
 (* ---------- the backward scan for the last valid root record ----------
    store.go readRootsScan / scanBackwardsForMagicEnd: try the candidate end
    positions size, size-1, ... while size > rootsLen. *)
-Fixpoint scan_back (fuel : nat) (f : file) (e : Z) : option (Z * list (bytes * option ploc)) :=
+Inductive scan_res :=
+| ScanOutOfFuel
+| ScanNone                                          (* no valid root record at or below the start *)
+| ScanFound (e : Z) (m : list (bytes * option ploc)).
+
+Fixpoint scan_back (fuel : nat) (f : file) (e : Z) : scan_res :=
   match fuel with
-  | O => None
+  | O => ScanOutOfFuel
   | S k =>
-    if e <=? roots_len then None else
+    if e <=? roots_len then ScanNone else
     match root_at f e with
-    | Some m => Some (e, m)
+    | Some m => ScanFound e m
     | None => scan_back k f (e - 1)
     end
   end.
 
-Definition scan (f : file) (size : Z) := scan_back (S (Z.to_nat size)) f size.
+(* the fuel is sufficient for every file and start (scan_total in DiskProofs.v) *)
+Definition scan (f : file) (size : Z) : scan_res := scan_back (S (Z.to_nat size)) f size.
 
 (* ---------- the independent decoder (C14) ---------- *)
 Inductive opened :=
@@ -75,8 +81,9 @@ Fixpoint load_all (f : file) (m : list (bytes * option ploc)) (bound : Z) : opti
 Definition decode_store (f : file) : opened :=
   if blen f =? 0 then OpEmpty else
   match scan f (blen f) with
-  | None => OpNoRoots
-  | Some (e, m) =>
+  | ScanOutOfFuel => OpBad
+  | ScanNone => OpNoRoots
+  | ScanFound e m =>
     match load_all f m e with
     | Some cs => OpOk e cs
     | None => OpBad
@@ -186,8 +193,8 @@ Definition flush_bytes (f : file) (size : Z) (cs : colls) : file * Z * colls :=
 Definition revert_bytes (f : file) (size : Z) : file * Z * list (bytes * option ploc) :=
   let size1 := if roots_len <? size then size - 1 else size in
   match scan f size1 with
-  | Some (e, m) => (firstn (Z.to_nat e) f, e, m)
-  | None => ([], 0, [])
+  | ScanFound e m => (firstn (Z.to_nat e) f, e, m)
+  | _ => ([], 0, [])
   end.
 
 (* the contents of a decoded store: names with their items *)
